@@ -189,7 +189,7 @@ func checkDiscardedWalkErrors(r *Run) {
 						return true
 					}
 					construct := shortPkg(p.PkgPath) + "." + funcDeclName(fd) + ":walk." + fn.Name()
-					if reason, ok := r.InTable(tbl, "c03_walk_errors", construct); ok {
+					if reason, ok := r.InTableAt(tbl, "c03_walk_errors", construct, p.TypesInfo, fd, "walk."+fn.Name()); ok {
 						r.Pass("C03-d-walk-error", construct, call.Pos(), "table: %s", reason)
 					} else {
 						r.Fail("C03-d-walk-error", construct, call.Pos(), "the error of walk.%s is discarded: a node type without a cursor ends the walk early and the caller continues with a partial result (identifiers not seen, hence not rewritten or not counted)", fn.Name())
